@@ -51,12 +51,12 @@ ITEM_HARNESS = {
 PROPERTY_BOUNDED = {
     'C01': ['roundtrip'], 'C03': ['raw_keys'], 'C08': ['index_flatten', 'index_nested'], 'C09': ['rewrite', 'hermes_rewrite'],
     'C14': ['hermes_scope'], 'C13': ['root_setters', 'builder_model'], 'C07': ['rmi_roundtrip'], 'C12': ['header'], 'C04': ['ordering'],
-    'C10': ['adjust', 'adjust_dups'], 'C05': ['decode_extreme'], 'C02': ['decode_document'], 'C15': ['sourceview'], 'C17': ['function_name'], 'C18': ['discover'], 'C19': ['relpath'], 'C20': ['ram_bundle'],
+    'C10': ['adjust', 'adjust_dups'], 'C05': ['decode_extreme'], 'C02': ['decode_document'], 'C06': ['decode_reject'], 'C15': ['sourceview'], 'C17': ['function_name'], 'C18': ['discover'], 'C19': ['relpath'], 'C20': ['ram_bundle'],
 }
 # harnesses that count their non-trivial expectations (a token found, a name resolved, ...): 0 of them means the run proves nothing
-NEEDS_WITNESS = {'decode_mutants', 'function_name', 'relpath', 'discover', 'sourceview', 'ram_bundle', 'index_flatten', 'index_nested', 'hermes_scope'}
+NEEDS_WITNESS = {'decode_mutants', 'decode_reject', 'function_name', 'relpath', 'discover', 'sourceview', 'ram_bundle', 'index_flatten', 'index_nested', 'hermes_scope'}
 ALL_HARNESSES = ['vlq_encode', 'vlq_decode', 'lookup', 'ordering', 'header', 'hermes_scope', 'index_flatten', 'index_nested', 'rewrite', 'hermes_rewrite', 'raw_keys', 'roundtrip',
-                 'rmi_roundtrip', 'root_setters', 'builder_model', 'relpath', 'discover', 'sourceview', 'function_name', 'ram_bundle', 'decode_extreme', 'decode_document', 'decode_mutants', 'adjust', 'adjust_dups']
+                 'rmi_roundtrip', 'root_setters', 'builder_model', 'relpath', 'discover', 'sourceview', 'function_name', 'ram_bundle', 'decode_extreme', 'decode_document', 'decode_reject', 'decode_mutants', 'adjust', 'adjust_dups']
 # C05 (nothing panics) runs every harness -- each of them catches panics of the code under test -- but only a panic counts for it
 PROPERTY_BOUNDED['C05'] = list(ALL_HARNESSES)
 PANIC_ONLY = {'C05'}
